@@ -48,13 +48,21 @@ func enumScenariosFor(prop string, depth int) []Scenario {
 		calleeCancels bool
 		progressive   bool // the call is a progressive call invocation with a long router-side timeout
 		stalledCallee bool // the callee stopped reading and its queue (one slot) holds the INVOCATION
+		forwarded     bool // progressive call invocation to a callee that handles the timeout itself (forward_timeout)
+		restart       bool // progressive call invocation whose later chunks restart a short router-side timeout
 	}
-	variants := []variant{{true, false, false}, {false, false, false}}
+	variants := []variant{{calleeCancels: true}, {}}
 	if prop == "C06" || prop == "C13" || prop == "C02" {
-		variants = append(variants, variant{true, true, false})
+		variants = append(variants, variant{calleeCancels: true, progressive: true})
 	}
 	if prop == "C07" || prop == "C13" {
-		variants = append(variants, variant{true, false, true})
+		variants = append(variants, variant{calleeCancels: true, stalledCallee: true})
+	}
+	if prop == "C13" || prop == "C02" || prop == "C03" {
+		variants = append(variants, variant{calleeCancels: true, progressive: true, forwarded: true})
+	}
+	if prop == "C13" || prop == "C02" {
+		variants = append(variants, variant{calleeCancels: true, progressive: true, restart: true})
 	}
 	for _, v := range variants {
 		calleeFeats := []string{"progressive_call_results"}
@@ -68,6 +76,15 @@ func enumScenariosFor(prop string, depth int) []Scenario {
 			callerFeats = append(callerFeats, "progressive_call_invocations")
 			callOpts = map[string]any{"receive_progress": true, "timeout": 3600000, "progress": true}
 		}
+		regOpts := map[string]any{}
+		if v.restart {
+			callOpts = map[string]any{"receive_progress": true, "timeout": 100, "progress": true}
+		}
+		if v.forwarded {
+			calleeFeats = append(calleeFeats, "call_timeout")
+			callOpts = map[string]any{"receive_progress": true, "timeout": 100, "progress": true}
+			regOpts = map[string]any{"forward_timeout": true}
+		}
 		callee := mkJoin(2, map[string][]string{"callee": calleeFeats})
 		if v.stalledCallee {
 			callee["cap"] = 1
@@ -76,12 +93,17 @@ func enumScenariosFor(prop string, depth int) []Scenario {
 			mkJoin(1, map[string][]string{"caller": callerFeats, "subscriber": {}}),
 			callee,
 			mkJoin(3, map[string][]string{"callee": {"call_canceling"}, "caller": {}}),
-			msg(2, 64, 1, map[string]any{}, "p"),
+			msg(2, 64, 1, regOpts, "p"),
 		}
 		if v.stalledCallee {
 			setup = append(setup, map[string]any{"op": "stall", "s": 2})
 		}
 		setup = append(setup, msg(1, 48, 1, callOpts, "p", []any{1}, map[string]any{}))
+		if v.restart {
+			// time passes before a later chunk re-arms the timer (with the first chunk's value: the
+			// dealer reads the timeout from the options stored with the invocation)
+			setup = append(setup, map[string]any{"op": "tick", "ms": 50})
+		}
 		alphabet := []map[string]any{
 			msg(1, 49, 1, map[string]any{"mode": "skip"}),
 			msg(1, 49, 1, map[string]any{"mode": "kill"}),
@@ -104,6 +126,21 @@ func enumScenariosFor(prop string, depth int) []Scenario {
 		}
 		if v.stalledCallee {
 			alphabet = append(alphabet, map[string]any{"op": "resume", "s": 2})
+		}
+		if v.restart {
+			// later chunks restart the timeout with a longer one: the first timer must not fire any more,
+			// neither on this call nor, once it has completed, on a new call with the same request id
+			alphabet = append(alphabet,
+				msg(1, 48, 1, map[string]any{"progress": true, "timeout": 1000}, "p", []any{6}, map[string]any{}),
+				msg(1, 48, 1, map[string]any{"timeout": 1000}, "p", []any{7}, map[string]any{}),
+				map[string]any{"op": "tick", "ms": 101})
+		}
+		if v.forwarded {
+			// later chunks carrying the timeout again, and enough time for a router-side timer to fire
+			alphabet = append(alphabet,
+				msg(1, 48, 1, map[string]any{"progress": true, "timeout": 100}, "p", []any{4}, map[string]any{}),
+				msg(1, 48, 1, map[string]any{"timeout": 100}, "p", []any{5}, map[string]any{}),
+				map[string]any{"op": "tick", "ms": 101})
 		}
 		var rec func(prefix []map[string]any, d int)
 		rec = func(prefix []map[string]any, d int) {
